@@ -18,6 +18,7 @@ REQUIRED = {"quick": ["canon.band.high", "canon.band.low", "canon.far.high", "ca
                       "verify_equiv.low"]}
 EXHAUSTIVE = {"quick": ["all s in [1,n-1] for every n in [2,2^11]"], "thorough": ["all s in [1,n-1] for every n in [2,2^12]"]}
 
+_NOISE = {"i": 0}
 ENCODERS = [("string", util.sigencode_string_canonize, util.sigencode_string, util.sigdecode_string),
             ("strings", util.sigencode_strings_canonize, util.sigencode_strings, util.sigdecode_strings),
             ("der", util.sigencode_der_canonize, util.sigencode_der, util.sigdecode_der)]
@@ -53,6 +54,16 @@ def check(ctx, n, r, s, tag, detail=True):
         cls = "canon.small_n"
     else:
         cls = "canon.%s.%s" % ("band" if band else "far", side)
+    _NOISE["i"] += 1
+    if detail and _NOISE["i"] % 3 == 0:
+        # a call outside the domain (s = 0, n, > n; another order) in between: whatever it does, it must not disturb later calls
+        other = n + 2 * (_NOISE["i"] % 7) + 2
+        for bad_s, bad_n in ((0, other), (other, other), (other + 5, other), (0, n), (n, n)):
+            try:
+                ENCODERS[_NOISE["i"] % 3][1](r, bad_s, bad_n)
+            except Exception:
+                pass
+        ctx.count("out_of_domain_calls_interleaved", 5)
     for ename, canon, plain, dec in ENCODERS:
         key = "%s|%s|%s|%d" % (ename, tag, side, dist.bit_length()) if detail else None
         ctx.case(cls, key=key, nontrivial=detail, sample=dict(encoder=ename, n=n, r=r, s=s, s_minus_half=s - half, expected_s=want_s) if ctx.want(cls) else None)
